@@ -52,7 +52,31 @@ def make_signal(prog, clsname, *, n=N, nchan=NCHAN, extra=(), start_time=True, f
         attrs["_freq_align"] = StrV(freq_align)
     if ci.is_subclass_of("DualPolarizationSignal"):
         attrs["_pol_type"] = StrV(pol_type)
+    complete_from_constructor(prog, ci, attrs, data)
     return ObjV(ci, attrs, tag=name)
+
+
+def complete_from_constructor(prog, ci, attrs, data):
+    """Instance attributes the class's own constructor / setters create beyond the modelled storage layout (caches,
+    flags) are taken over from an evaluation of the constructor, so that a class that grows such an attribute is still
+    analysed through its own code.  Best effort: a constructor the evaluator cannot follow leaves the model as it is."""
+    try:
+        from .symeval import Evaluator, Frame
+        ev = Evaluator(prog)
+        kw = {"sample_rate": attrs["_sample_rate"], "start_time": attrs["_start_time"]}
+        if "_center_freq" in attrs:
+            kw["center_freq"] = attrs["_center_freq"]
+            kw["freq_align"] = attrs["_freq_align"]
+            if not ci.is_subclass_of("BasebandSignal"):
+                kw["chan_bw"] = attrs["_chan_bw"]
+        if "_pol_type" in attrs:
+            kw["pol_type"] = attrs["_pol_type"]
+        obj = ev.construct(ci, [data], kw, Frame(None, None, None, {}, 0))
+        for k, v in obj.attrs.items():
+            if k not in attrs:
+                attrs[k] = v
+    except Exception:
+        pass
 
 
 def pol_data(name="z", comps=("A", "B"), axis=2, backend="numpy", shape=None):
